@@ -25,12 +25,15 @@ import numpy as np
 from harness import common as C
 
 # source tie (harness/translate.py, dialect 'dyn'): the recursive writer, the HDF5 group methods, the spectrum dictionaries, the
-# loaders (generic, per component, chemistry, whole model, file level) and component `write` methods, regenerated on every run into lean/TaurexModel/Gen/SrcC16.lean and proved equal to the functions of
+# loaders (generic, per component, chemistry, whole model, file level) and component `write` methods (temperature, chemistry,
+# model, star, planet, pressure, gas profiles, contributions), regenerated on every run into lean/TaurexModel/Gen/SrcC16.lean and proved equal to the functions of
 # TaurexModel/Output.lean in lean/Props/C16Src.lean
 _U = 'taurex/util/util.py'
 _H = 'taurex/output/hdf5.py'
 _L = 'taurex/util/hdf5.py'
 _TP = 'taurex/data/profiles/temperature/'
+_GP = 'taurex/data/profiles/chemistry/gas/'
+_CT = 'taurex/contributions/'
 SRC_SPECS = [
     dict(module=_U, func='recursively_save_dict_contents_to_output', lean='recursively_save', dialect='dyn',
          callees={'store_thing': 3}),
@@ -81,6 +84,34 @@ SRC_SPECS = [
     dict(module=_L, func='load_model_from_hdf5', lean='load_model', dialect='dyn'),
     dict(module=_L, func='taurex_hdf5_to_model', lean='hdf5_to_model', dialect='dyn'),
     dict(module=_L, func='taurex_hdf5_to_observation', lean='hdf5_to_observation', dialect='dyn'),
+    # the `write` methods of the star, the planet, the pressure profiles, the gas profiles and the contributions
+    # (BlackbodyStar / Planet / AbsorptionContribution inherit the method of their base class)
+    dict(module='taurex/data/stellar/star.py', cls='Star', func='write', lean='star_write', callname='star_write',
+         dialect='dyn'),
+    dict(module='taurex/data/planet.py', cls='BasePlanet', func='write', lean='planet_write', callname='planet_write',
+         dialect='dyn'),
+    dict(module='taurex/data/profiles/pressure/pressureprofile.py', cls='PressureProfile', func='write',
+         lean='pressure_write', callname='pressure_write', dialect='dyn'),
+    dict(module='taurex/data/profiles/pressure/pressureprofile.py', cls='SimplePressureProfile', func='write',
+         lean='simplepressure_write', callname='simplepressure_write', dialect='dyn',
+         calls={'super().write': 'pressure_write'}),
+    dict(module=_GP + 'gas.py', cls='Gas', func='write', lean='gas_write', callname='gas_write', dialect='dyn'),
+    dict(module=_GP + 'constantgas.py', cls='ConstantGas', func='write', lean='constantgas_write',
+         callname='constantgas_write', dialect='dyn', calls={'super().write': 'gas_write'}),
+    dict(module=_GP + 'twolayergas.py', cls='TwoLayerGas', func='write', lean='twolayergas_write',
+         callname='twolayergas_write', dialect='dyn', calls={'super().write': 'gas_write'}),
+    dict(module=_GP + 'twopointgas.py', cls='TwoPointGas', func='write', lean='twopointgas_write',
+         callname='twopointgas_write', dialect='dyn', calls={'super().write': 'gas_write'}),
+    dict(module=_GP + 'powergas.py', cls='PowerGas', func='write', lean='powergas_write',
+         callname='powergas_write', dialect='dyn', calls={'super().write': 'gas_write'}),
+    dict(module=_CT + 'contribution.py', cls='Contribution', func='write', lean='contribution_write',
+         callname='contribution_write', dialect='dyn'),
+    dict(module=_CT + 'cia.py', cls='CIAContribution', func='write', lean='cia_write', callname='cia_write',
+         dialect='dyn', calls={'super().write': 'contribution_write'}),
+    dict(module=_CT + 'simpleclouds.py', cls='SimpleCloudsContribution', func='write', lean='simpleclouds_write',
+         callname='simpleclouds_write', dialect='dyn', calls={'super().write': 'contribution_write'}),
+    dict(module=_CT + 'flatmie.py', cls='FlatMieContribution', func='write', lean='flatmie_write',
+         callname='flatmie_write', dialect='dyn', calls={'super().write': 'contribution_write'}),
 ]
 
 RULE = ('dictionaries: 1-7 entries per level, depth <= 3, values drawn from scalars (float/int/bool, numpy and python, '
